@@ -134,7 +134,7 @@ def _mc_cfg(thorough):
     return p
 
 
-def _canary(groups, metas, d):
+def _canary(groups, metas, d, bad_keys=()):
     """corrupt good recorded steps: (a) one output item changed, (b) one output item dropped,
     (c) tick counter after off by one, (d) an extra tick claimed -> each must be flagged"""
     evs, want = [], {}
@@ -142,8 +142,8 @@ def _canary(groups, metas, d):
     for key in sorted(groups):
         g = groups[key]
         m = metas[key[0]]
-        if m["prop"] not in ("C21", "C24", "C25", "C26") or m["variant"]:
-            continue
+        if m["prop"] not in ("C21", "C24", "C25", "C26") or m["variant"] or key in bad_keys:
+            continue        # only histories on which model and code agree are corrupted
         steps = [i for i, e in enumerate(g) if e.get("e") == "step" and any(any(s for s in t) for t in e["ticks"])]
         if not steps or any(e.get("e") == "panic" for e in g):
             continue
@@ -173,6 +173,10 @@ def _canary(groups, metas, d):
         if cid >= 24:
             break
     if cid < 8:
+        if bad_keys:
+            # nearly every history already disagrees with the model (and is being reported): the
+            # binding is evidently not vacuous, and there is nothing clean left to corrupt
+            return 0, None
         raise vlib.ToolError("could not build canaries (no suitable recorded steps)")
     path = os.path.join(d, "canary.ndjson")
     vlib.write_ndjson(path, evs + [{"e": "eof"}])
@@ -282,7 +286,7 @@ def run(tier):
     # count -- 9 programs x all inputs x 2 modes -- and the canaries below)
 
     # (6) canaries
-    ncan, r_can = _canary(groups, metas, d)
+    ncan, r_can = _canary(groups, metas, d, bad_keys)
 
     # ---- evidence
     table, nprog_by = {}, {}
@@ -316,7 +320,8 @@ def run(tier):
                               json.dumps([[s["mode"], s["inputs"]] for s in steps])))
         rr.add_tlc(r_tv, "trace-validation (all programs, shared)")
         rr.add_tlc(r_mc, "DfirTickMC exhaustive (tiny programs x all histories)")
-        rr.add_tlc(r_can, "canary trace-validation")
+        if r_can is not None:
+            rr.add_tlc(r_can, "canary trace-validation")
         rr.traces = sum(len(hist[str(m["id"])]) for m in mine)
         rr.evaluations = nsteps
         rr.distinct_nontrivial = len(keys)
